@@ -10,6 +10,12 @@
 //! theorems of `Props/C02e.lean` about the tree (`TreeOK`, `NoAlias`, `InOrder`) are evaluated as
 //! monitors on every tree by a Rust mirror, and the mirror itself is tied to the model's
 //! definitions by op `typok`. `htmlclamp`: the `Space(n)` clamp of `HtmlParser::parse`.
+//! `htmlparse` (w24): the WHOLE `HtmlParser::parse` against `Typst.htmlParse` — the text and the mask
+//! the real `TreeSitterMasker` (tree-sitter-html `text` nodes) computes for it are handed over, the
+//! model runs `maskParse` with its own model of `PlainEnglish` as the inner parser, then the clamp.
+//! `RangesSolid` (w24): the fourth assumption predicate (every range the translator turns into a
+//! non-structural `def_token!` token covers at least one character) — mirror, monitor, fourth field
+//! of `typok`.
 use crate::c02::{Out, check_tokens, merge};
 use crate::common::*;
 use crate::textgen;
@@ -474,6 +480,50 @@ impl<'a> Mon<'a> {
         }
     }
 
+    // --- RangesSolid: every range `def_token!` turns into a NON-structural token covers a character ---
+    /// `charCount ((bs.drop s).take (e - s))` of the model: the bytes of `[s, e)` (clipped to the
+    /// text like `List.drop` / `List.take`) that start a character
+    fn nchars_raw(&self, s: usize, e: usize) -> usize {
+        let b = self.text.as_bytes();
+        let lo = s.min(b.len());
+        let hi = (lo + e.saturating_sub(s)).min(b.len());
+        b[lo..hi].iter().filter(|x| (**x & 0xC0) != 0x80).count()
+    }
+    /// `solidR`: detached, or at least one character
+    pub fn solid(&self, r: &R) -> bool {
+        match r {
+            None => true,
+            Some((s, e)) => self.nchars_raw(*s, *e) >= 1,
+        }
+    }
+    /// `solidN` of Model/Typst.lean
+    pub fn ranges_solid(&self, n: &N) -> bool {
+        match n {
+            N::Text(..) | N::Space(_) | N::Str(..) | N::LetClosure(_) => true,
+            N::Leaf(k, r) => *k == "lb" || *k == "pb" || self.solid(r),
+            N::PatPlaceholder(r) => self.solid(r),
+            N::Body(_, _, ns) | N::Rec(_, _, ns) => ns.iter().all(|k| self.ranges_solid(k)),
+            N::Rec1(_, _, k) => self.ranges_solid(k),
+            N::Array(_, is) | N::Dict(_, is) | N::PatDestruct(_, is) => is.iter().all(|i| self.item_solid(i)),
+            N::Field(_, t, f) => self.ranges_solid(t) && self.solid(f),
+            N::Let(_, k, init) => self.ranges_solid(k) && init.iter().all(|k| self.ranges_solid(k)),
+            N::Set(_, t, c, a) => self.ranges_solid(t) && c.iter().all(|k| self.ranges_solid(k)) && a.iter().all(|i| self.item_solid(i)),
+            N::Closure(_, nm, ps, b) => nm.iter().all(|k| self.ranges_solid(k)) && ps.iter().all(|i| self.item_solid(i)) && self.ranges_solid(b),
+            // the callee and (possibly ignored: one `Unlintable` over the whole argument) every argument
+            N::Call(_, c, a) => self.solid(c) && a.iter().all(|i| self.solid(&i_range(i)) && self.item_solid(i)),
+            N::PatParen(_, e, p) => self.ranges_solid(e) && self.ranges_solid(p),
+        }
+    }
+    fn item_solid(&self, i: &I) -> bool {
+        match i {
+            I::Pos(n) => self.ranges_solid(n),
+            I::Named(_, nm, _, v) => self.ranges_solid(nm) && self.ranges_solid(v),
+            I::DNamed(_, nr, p) => self.solid(nr) && self.ranges_solid(p),
+            I::Keyed(_, k, v) => self.ranges_solid(k) && self.ranges_solid(v),
+            I::Spread(_, ns) => ns.iter().all(|k| self.ranges_solid(k)),
+        }
+    }
+
     // --- NoAlias: the direct accessor results of one node are pairwise different children ------
     fn nodup(rs: &[R]) -> bool {
         let v: Vec<(usize, usize)> = rs.iter().filter_map(|r| *r).filter(|(s, e)| s < e).collect();
@@ -828,6 +878,120 @@ fn kinds_of(n: &N, out: &mut std::collections::BTreeSet<String>) {
 }
 
 // ---------------------------------------------------------------------------------------------
+// synthetic trees for `typok` (w24): every real tree satisfies `TreeOK` and `RangesSolid`, so on real
+// trees the mirror is only ever compared with the model on the TRUE side. One range of a real tree
+// is emptied (`s:e` → `s:s`) and the four predicates are compared again on the result (mirror vs
+// model only: no parser is involved, nothing is claimed about real code).
+// ---------------------------------------------------------------------------------------------
+
+fn ranges_mut<'a>(n: &'a mut N, out: &mut Vec<&'a mut R>) {
+    fn items<'a>(is: &'a mut Vec<I>, out: &mut Vec<&'a mut R>) {
+        for i in is.iter_mut() {
+            match i {
+                I::Pos(n) => ranges_mut(n, out),
+                I::Named(r, a, _, b) | I::Keyed(r, a, b) => {
+                    out.push(r);
+                    ranges_mut(a, out);
+                    ranges_mut(b, out);
+                }
+                I::DNamed(r, nr, p) => {
+                    out.push(r);
+                    out.push(nr);
+                    ranges_mut(p, out);
+                }
+                I::Spread(r, ns) => {
+                    out.push(r);
+                    ns.iter_mut().for_each(|k| ranges_mut(k, out));
+                }
+            }
+        }
+    }
+    match n {
+        N::Text(r, _) | N::Space(r) | N::Leaf(_, r) | N::Str(r, _) | N::LetClosure(r) | N::PatPlaceholder(r) => out.push(r),
+        N::Body(_, r, ns) | N::Rec(_, r, ns) => {
+            out.push(r);
+            ns.iter_mut().for_each(|k| ranges_mut(k, out));
+        }
+        N::Rec1(_, r, k) => {
+            out.push(r);
+            ranges_mut(k, out);
+        }
+        N::Array(r, is) | N::Dict(r, is) | N::PatDestruct(r, is) => {
+            out.push(r);
+            items(is, out);
+        }
+        N::Field(r, t, f) => {
+            out.push(r);
+            ranges_mut(t, out);
+            out.push(f);
+        }
+        N::Let(r, k, init) => {
+            out.push(r);
+            ranges_mut(k, out);
+            init.iter_mut().for_each(|k| ranges_mut(k, out));
+        }
+        N::Set(r, t, c, a) => {
+            out.push(r);
+            ranges_mut(t, out);
+            c.iter_mut().for_each(|k| ranges_mut(k, out));
+            items(a, out);
+        }
+        N::Closure(r, nm, ps, b) => {
+            out.push(r);
+            nm.iter_mut().for_each(|k| ranges_mut(k, out));
+            items(ps, out);
+            ranges_mut(b, out);
+        }
+        N::Call(r, c, a) => {
+            out.push(r);
+            out.push(c);
+            items(a, out);
+        }
+        N::PatParen(r, e, p) => {
+            out.push(r);
+            ranges_mut(e, out);
+            ranges_mut(p, out);
+        }
+    }
+}
+
+/// `typok` on the tree of `text` with its `pick`-th range (serialisation order, attached ranges only)
+/// emptied; `None` when the tree has no attached range
+pub fn eval_typok_synthetic(text: &str, pick: u64) -> Option<Out> {
+    let mut out = new_out();
+    let src: Vec<char> = text.chars().collect();
+    let doc = Source::detached(text.to_string());
+    let mut top = match guarded(|| tree_of(&doc)) {
+        Ok(Some(t)) => t,
+        _ => return None,
+    };
+    {
+        let mut rs: Vec<&mut R> = vec![];
+        for n in top.iter_mut() {
+            ranges_mut(n, &mut rs);
+        }
+        let mut att: Vec<&mut R> = rs.into_iter().filter(|r| r.is_some()).collect();
+        if att.is_empty() {
+            return None;
+        }
+        let k = (pick % att.len() as u64) as usize;
+        if let Some((s, _)) = *att[k] {
+            *att[k] = Some((s, s));
+        }
+    }
+    let mon = Mon { text, src: &src };
+    let tok = top.iter().all(|n| mon.tree_ok(0, text.len(), n));
+    let nal = top.iter().all(|n| mon.no_alias(n)) && Mon::nodup(&top.iter().map(n_range).collect::<Vec<_>>());
+    let ord = mon.seq_order(0, &top).is_some();
+    let sol = top.iter().all(|n| mon.ranges_solid(n));
+    out.counts.push("typok-synthetic".into());
+    out.counts.push(format!("typok-synthetic:TreeOK={}", tok));
+    out.counts.push(format!("typok-synthetic:RangesSolid={}", sol));
+    out.k.push((format!("typok | {} | {}", tree_words(&top), chars_field(&src)), format!("ok {} {} {} {}", tok as u8, nal as u8, ord as u8, sol as u8)));
+    Some(out)
+}
+
+// ---------------------------------------------------------------------------------------------
 // one text
 // ---------------------------------------------------------------------------------------------
 
@@ -858,6 +1022,7 @@ pub fn eval_typst(text: &str) -> Out {
     let tok = top.iter().all(|n| mon.tree_ok(0, text.len(), n));
     let nal = top.iter().all(|n| mon.no_alias(n)) && Mon::nodup(&top.iter().map(n_range).collect::<Vec<_>>());
     let ord = mon.seq_order(0, &top).is_some();
+    let sol = top.iter().all(|n| mon.ranges_solid(n));
     let mut sh = Shapes::default();
     for n in &top {
         mon.shapes(n, &mut sh);
@@ -867,6 +1032,8 @@ pub fn eval_typst(text: &str) -> Out {
     // the repair 0f1b3ac: `get_text!` gives the empty text, `token!`'s `?` leaves parse_func_call
     // with None; counted.)
     out.monitors.push(("typst:TreeOK".into(), tok));
+    // `RangesSolid` is the extra assumption of `typstParse_zero_width_structural`: monitored on EVERY real tree
+    out.monitors.push(("typst:RangesSolid".into(), sol));
     if sh.detached_callee {
         out.counts.push("typst:tree-with-detached-callee".into());
     }
@@ -879,7 +1046,7 @@ pub fn eval_typst(text: &str) -> Out {
     if ord && !nal {
         out.counts.push("typst:InOrder-with-alias-in-unvisited-argument".into());
     }
-    out.k.push((format!("typok | {} | {}", words, chars_field(&src)), format!("ok {} {} {}", tok as u8, nal as u8, ord as u8)));
+    out.k.push((format!("typok | {} | {}", words, chars_field(&src)), format!("ok {} {} {} {}", tok as u8, nal as u8, ord as u8, sol as u8)));
     let op = format!("typst | {} | {}", words, text_field(&src));
     // byte offset → char index
     let mut b2c = vec![0usize; text.len() + 1];
@@ -938,6 +1105,11 @@ pub fn eval_typst(text: &str) -> Out {
             // give ordered, disjoint covering tokens
             if tok && ord {
                 out.monitors.push(("typst:sorted-when-InOrder".into(), dis.is_none() && !out.fails[nf..].iter().any(|f| f.0 == "c02-typst-duplicate-node")));
+            }
+            // `typstParse_zero_width_structural` on the real tokens: TreeOK ∧ RangesSolid ⇒ a zero-width
+            // token is a ParagraphBreak or a Newline
+            if tok && sol {
+                out.monitors.push(("typst:zero-width-structural-when-RangesSolid".into(), toks.iter().all(|t| t.span.start != t.span.end || matches!(t.kind, TokenKind::ParagraphBreak | TokenKind::Newline(_)))));
             }
             // … and `typstParse_inbounds`: TreeOK ⇒ in bounds
             if tok {
@@ -999,6 +1171,84 @@ pub fn eval_html(text: &str) -> Out {
     out.counts.push("htmlclampt".into());
     check_tokens("html(parser)", text, &src, &b, false, &mut out);
     out
+}
+
+/// `htmlparse | text (cp:flags) | mask (s:e …)` → the tokens of `HtmlParser::parse`: the model's
+/// `htmlParse src mask (plainInner cls)` — `parsers::Mask::parse` over the mask the REAL
+/// `TreeSitterMasker` (tree-sitter-html, `text` nodes) computes for the text, the model's own
+/// `PlainEnglish` as the inner parser, the `Space` clamp — against the real parser. The hypothesis
+/// `MaskOK` of `htmlParse_inbounds_sorted` is a monitor on every real mask.
+pub fn eval_htmlparse(text: &str) -> Out {
+    let mut out = new_out();
+    let src: Vec<char> = text.chars().collect();
+    let inp = || json!({"frontend": "html(parser)", "text": text});
+    let masker = harper_tree_sitter::TreeSitterMasker::new(tree_sitter_html::language(), |n| n.kind() == "text");
+    let mask: Vec<(usize, usize)> = match guarded(|| {
+        use harper_core::Masker;
+        masker.create_mask(&src).iter_allowed(&src).map(|(s, _)| (s.start, s.end)).collect::<Vec<_>>()
+    }) {
+        Ok(m) => m,
+        Err(e) => {
+            out.counts.push("htmlparse:masker-panicked".into());
+            out.fails.push(("html-parser-panic".into(), format!("TreeSitterMasker::create_mask panicked: {}", e), inp()));
+            return out;
+        }
+    };
+    let mask_ok = mask.iter().all(|(s, e)| s <= e && *e <= src.len()) && mask.windows(2).all(|w| w[0].1 <= w[1].0);
+    out.monitors.push(("html:MaskOK".into(), mask_ok));
+    let op = format!("htmlparse | {} | {}", text_field(&src), mask.iter().map(|(a, b)| format!("{}:{}", a, b)).collect::<Vec<_>>().join(" ")).trim_end().to_string();
+    out.counts.push(format!("htmlparse:spans={}", mask.len().min(3)));
+    match guarded(|| harper_html::HtmlParser::default().parse(&src)) {
+        Ok(toks) => {
+            if toks.iter().any(|t| matches!(t.kind, TokenKind::ParagraphBreak)) {
+                out.counts.push("htmlparse:paragraph-break".into());
+            }
+            if toks.iter().any(|t| matches!(t.kind, TokenKind::Space(1)) && t.span.end > t.span.start + 1) {
+                out.counts.push("htmlparse:clamped-space".into());
+            }
+            if !text.is_ascii() && mask.len() >= 2 {
+                out.nontrivial = Some(op.clone());
+            }
+            out.k.push((op, format!("ok {}", toks_show(&toks)).trim_end().to_string()));
+            check_tokens("html(parser)", text, &src, &toks, false, &mut out);
+            if mask_ok {
+                // `htmlParse_inbounds_sorted` on the real tokens
+                out.monitors.push(("html:inbounds-sorted-when-MaskOK".into(), toks.iter().all(|t| t.span.start <= t.span.end && t.span.end <= src.len()) && toks.windows(2).all(|w| w[0].span.end <= w[1].span.start)));
+            }
+        }
+        Err(e) => {
+            out.k.push((op, "panic".into()));
+            out.fails.push(("html-parser-panic".into(), format!("HtmlParser::parse panicked: {}", e), inp()));
+        }
+    }
+    out
+}
+
+/// the pieces of the exhaustive small scope of `htmlparse`
+pub const HTML_PIECES: [&str; 11] = ["<p>", "</p>", "a", " ", "  ", "\n", "<script>", "</script>", "&amp;", "é", "'"];
+
+fn html_random(rng: &mut Rng) -> String {
+    let atoms: &[&str] = &[
+        "<p>", "</p>", "<b>", "</b>", "<i title=\"x y\">", "</i>", "<br>", "<br/>", "<div class=\"é\">", "</div>", "<script>", "</script>", "<style>", "</style>", "<!-- c -->", "<!--", "-->", "<!DOCTYPE html>", "<", ">", "</", "/>", "&amp;", "&#233;", "&", ";",
+        "a", "Scott", "There", "word ", "it's", "'", "\"", " ", "  ", "   ", "\t", "\n", "\n\n", "\r\n", "é", "😀", "1st", "2.5", "x@y.z", "https://a.b", ".", ", ", "-", "=", "et al.",
+    ];
+    let mut s = String::new();
+    match rng.below(3) {
+        0 => {
+            for _ in 0..rng.range(1, 12) {
+                s.push_str(*rng.pick(atoms));
+            }
+        }
+        1 => s = crate::c04::cgen::gen_html(rng).text,
+        _ => {
+            for _ in 0..rng.range(1, 4) {
+                s.push_str(*rng.pick::<&str>(&["<p>", "<div>\n  ", "<b title=\"x\">", "", "</p>"]));
+                s.push_str(&textgen::sentence(rng));
+                s.push_str(*rng.pick::<&str>(&["</p>", "</div>", "</b>", "\n", "  ", "<br>", "</p>\n\n<p>"]));
+            }
+        }
+    }
+    if rng.chance(1, 6) { textgen::mutate(rng, &s) } else { s }
 }
 
 // ---------------------------------------------------------------------------------------------
@@ -1063,6 +1313,8 @@ enum Job {
     Typst(String),
     HtmlClamp(usize),
     Html(String),
+    HtmlParse(String),
+    TypOkSyn(String, u64),
 }
 
 fn run_job(j: &Job) -> Out {
@@ -1070,6 +1322,8 @@ fn run_job(j: &Job) -> Out {
         Job::Typst(t) => eval_typst(t),
         Job::HtmlClamp(n) => eval_htmlclamp(*n),
         Job::Html(t) => eval_html(t),
+        Job::HtmlParse(t) => eval_htmlparse(t),
+        Job::TypOkSyn(t, k) => eval_typok_synthetic(t, *k).unwrap_or_else(new_out),
     }
 }
 
@@ -1100,6 +1354,35 @@ pub fn corpus_texts() -> Vec<String> {
         if ext == "typ" {
             v.push(content.clone());
         }
+    }
+    v
+}
+
+/// corpus of `htmlparse`: the repo's HTML fixtures and every prefix of the shortest, adjacent tokens
+/// separated by masked markup (`Scott</p><b …>'There`), blanks runs, raw-text elements, entities,
+/// multi-byte text, unclosed markup
+pub fn html_corpus() -> Vec<String> {
+    let mut v: Vec<String> = [
+        "", " ", "\n", "a", "é", "<p>", "</p>", "<p>a</p>", "Scott</p><b title=\"x\">'There", "<p>a   é</p>\n<script>x</script> b", "Scott</p><b title=\"x\">'There is", "Scott</p><b title=\"é😀\">'There", "<p>a   b</p>", "<p>a \t b</p>", "<p>a</p>\n\n<p>b</p>", "<p>a</p>\n<p>b</p>", "<p>a</p>   <p>b</p>", "<p>a</p><p>b</p>",
+        "<script>let x = 'teh';</script>", "<style>p { color: red }</style>teh", "<p>a &amp; b</p>", "&amp;", "a &#233; b", "<p>é 😀 ü</p>", "<p>é</p>\n<p>ü</p>", "<!-- a comment -->text", "<!DOCTYPE html><html><body>x  y</body></html>", "<p", "<p>a", "a</p>", "<", ">", "a < b > c",
+        "<b>1st</b> 2nd", "<a href=\"https://x.y\">https://x.y</a> x@y.z", "<p>it's</p><p>'s</p>", "<p>et al.</p>", "<p>a.\n\n\nb.</p>", "  <p>  a  </p>  ", "\t<p>\ta\t</p>\t", "<p>a<br>b</p>", "<p>a<br>\nb</p>", "<ul>\n  <li>one</li>\n  <li>two</li>\n</ul>",
+    ]
+    .iter()
+    .map(|s| s.to_string())
+    .collect();
+    for (ext, content) in crate::corpus::fixtures() {
+        if ext == "html" {
+            v.push(content.clone());
+            let cs: Vec<char> = content.chars().collect();
+            if cs.len() <= 600 {
+                for i in 0..cs.len() {
+                    v.push(cs[..i].iter().collect());
+                }
+            }
+        }
+    }
+    for s in textgen::SPICE {
+        v.push(format!("<p>{}</p> {} <b>{}</b>", s, s, s));
     }
     v
 }
@@ -1155,6 +1438,32 @@ pub fn run_into(sess: &mut Session, ctx: &Ctx, rng: &mut Rng) {
             _ => textgen::mutate(rng, &format!("<p>{}   </p>  <i>a \t b</i>", prose)),
         };
         jobs.push(Job::Html(t));
+    }
+    // `typok` on synthetic trees (one range of a real tree emptied): the texts of the corpus and of the
+    // exhaustive small scope of at most 24 bytes, every fourth other job (≤ 400 bytes) — the FALSE side
+    // of TreeOK / RangesSolid, which no real tree shows
+    {
+        let mut syn: Vec<Job> = vec![];
+        for (i, j) in jobs.iter().enumerate() {
+            if let Job::Typst(t) = j {
+                if t.len() <= 400 && (i < n_exh && t.len() <= 24 || i % 4 == 0) {
+                    syn.push(Job::TypOkSyn(t.clone(), rng.below(1 << 20) as u64));
+                }
+            }
+        }
+        jobs.extend(syn);
+    }
+    // `htmlparse`: the whole HtmlParser::parse. corpus (the repo's HTML fixtures, masked-markup corner
+    // cases) → ALL concatenations of ≤ 4 (quick) / ≤ 5 (thorough) of the 11 HTML pieces → random HTML
+    for t in html_corpus() {
+        jobs.push(Job::HtmlParse(t));
+    }
+    for t in crate::c02md::all_piece_strings(&HTML_PIECES, if thorough { 5 } else { 4 }) {
+        jobs.push(Job::HtmlParse(t));
+    }
+    let n_hp = if thorough { 40000 } else { 4000 };
+    for _ in 0..n_hp {
+        jobs.push(Job::HtmlParse(html_random(rng)));
     }
     sess.add("c02typst:jobs", jobs.len() as u64);
     sess.add("c02typst:exhaustive+corpus jobs", n_exh as u64);
